@@ -97,6 +97,9 @@ def encoder(cfg):
             kw.update(load_rank=False, info_indices=torch.tensor(list(mask), dtype=torch.bool))
         with contextlib.redirect_stdout(io.StringIO()):
             _ENC[key] = PolarCodeEncoder(k, N, **kw)
+        # the encoder memoises its butterfly index table (mask_dict) on first use: fill it natively, so that a symbolic run never leaves a
+        # lifted tensor behind on the cached object
+        _ENC[key](torch.zeros(1, k))
     return _ENC[key]
 
 
@@ -438,8 +441,7 @@ def _nf_cfgs(tier):
     grid = []
     for N in (2, 4, 8):
         grid += [(N, k) for k in range(1, N)]
-    grid += [(16, k) for k in ((1, 5, 8, 12, 15) if tier == "quick" else range(1, 16))]
-    grid += [(32, k) for k in ((16,) if tier == "quick" else (1, 8, 16, 24, 31))]
+    grid += [(16, k) for k in ((1, 5) if tier == "quick" else (1, 3, 5, 8))]  # larger k: z3 runs out of time (stated bound; natively covered)
     for N, k in grid:
         for fz, pi in ((0, 0), (1, 1)) + (((0, 1), (1, 0)) if (tier == "thorough" or N <= 4) else ()):
             for regime in ("min_sum", "sum_product"):
@@ -499,19 +501,21 @@ _BP_FUNCS = (
 )
 
 
-def _bp_sym_cfgs(tier):
+def _bp_sym_cfgs(tier, regime):
     out = []
-    for N in (2, 4) + ((8,) if tier == "thorough" else ()):
-        for k in range(1, N):
-            for fz in (0, 1):
-                for iters in (1, 2):
-                    out.append(Cfg("polar", N, k, fz, 0, None, "min_sum", iters))
+    if regime == "min_sum":
+        grid = [(N, k, it) for N in (2, 4) for k in range(1, N) for it in (1, 2, 10)] + [(8, k, it) for k in range(1, 8) for it in ((1, 2) if tier == "quick" else (1, 2, 3))]
+    else:
+        grid = [(N, k, it) for N in (2, 4) for k in range(1, N) for it in (1, 2)] + [(8, k, 1) for k in ((2, 4, 7) if tier == "quick" else range(1, 8))]
+        if tier == "thorough":
+            grid += [(8, k, 2) for k in (2, 4, 7)] + [(4, k, 10) for k in (1, 2, 3)]
+    for N, k, it in grid:
+        for fz in (0, 1):
+            out.append(Cfg("polar", N, k, fz, 0, None, regime, it))
     return out
 
 
-@obligation("C11.bp_noise_free", function=_BP_FUNCS, configs=_bp_sym_cfgs, timeout_ms=60000, crosscheck=2)
-def bp_noise_free(ctx, cfg):
-    """forall m, forall a > 0: BP(a (1 - 2 forward(m))) == m   (min-sum check node, 1 and 2 iterations, N <= 4; thorough N = 8)"""
+def _bp_noise_free_body(ctx, cfg):
     _, N, k, fz, pi, mask, regime, iters = cfg
     enc = encoder(cfg)
     dec = bp_decoder(cfg, regime, iters)
@@ -528,3 +532,156 @@ def bp_noise_free(ctx, cfg):
     ctx.ensure("returns", out.ok, note=repr(out.exc) if not out.ok else "")
     if out.ok:
         ctx.ensure("decodes_to_message", SP.shape_is(out.value, (1, k)) and SP.all_eq(P(out.value), P(m)), note=f"{iters} iteration(s), clip={dec.clip}")
+
+
+@obligation("C11.bp_noise_free", function=_BP_FUNCS, configs=lambda tier: _bp_sym_cfgs(tier, "min_sum"), timeout_ms=60000, crosscheck=2)
+def bp_noise_free(ctx, cfg):
+    """forall m, forall a > 0: BP(a (1 - 2 forward(m))) == m   (min-sum check node; N <= 4 with 1, 2 and the default 10 iterations, N = 8 with 1-2)"""
+    _bp_noise_free_body(ctx, cfg)
+
+
+@obligation("C11.bp_noise_free_sum_product", function=_BP_FUNCS + "; " + FU + ":sum_product", configs=lambda tier: _bp_sym_cfgs(tier, "sum_product"), timeout_ms=120000, crosscheck=0)
+def bp_noise_free_sp(ctx, cfg):
+    """same clause, sum-product check node with tanh / atanh / product uninterpreted under their sign axioms (no differential cross-check: see C11.decoders_native)"""
+    _bp_noise_free_body(ctx, cfg)
+
+
+# ------------------------------------------------------------------------------------------------ lemma: input bound that implies 'no saturation'
+@obligation("C11.sc_no_saturation_lemma", function=FSC + ":SuccessiveCancellationDecoder.checknode", configs=lambda tier: [Cfg("polar", N, N - 1, 0, pi, None, "min_sum") for N in ((2, 4, 8) if tier == "quick" else (2, 4, 8, 16)) for pi in (0, 1)], crosscheck=0)
+def sc_no_saturation_lemma(ctx, cfg):
+    """the precondition of C11.sc_equals_textbook ('no textbook check-node message exceeds the clipping threshold') is implied by the input
+    bound |llr_i| <= clip / (N/2); a statement about the specification only (min-sum), proved for all real inputs"""
+    _, N, k, fz, pi, mask, regime = cfg
+    dec = sc_decoder(cfg, regime)
+    clip = S.norm(float(dec.clip))
+    llr = ctx.reals("llr", (N,), sampler=lambda r: r.uniform(-1, 1) * float(dec.clip) * 2 / N)
+    for v in P(llr):
+        ctx.assume(S.le(S.sabs(v), S.div(S.mul(2, clip), N)))
+    for fzv in (0, 1):
+        _, _, cns = sc_textbook(list(P(llr)), [True] * N, fzv, bool(pi), f_minsum)
+        ctx.ensure(f"check_node_messages_within_clip.all_info", SP.conj(S.le(S.sabs(v), clip) for v in cns))
+    imask = [i >= N // 2 for i in range(N)]
+    for fzv in (0, 1):
+        _, _, cns = sc_textbook(list(P(llr)), imask, fzv, bool(pi), f_minsum)
+        ctx.ensure(f"check_node_messages_within_clip.half_frozen_{fzv}", SP.conj(S.le(S.sabs(v), clip) for v in cns))
+
+
+# ================================================================================================ bounded stand-in (native) for both decoders
+def _native_cfgs(tier):
+    Ns = (2, 4, 8, 16, 32, 64, 256, 1024) if tier == "quick" else (2, 4, 8, 16, 32, 64, 128, 256, 512, 1024)
+    return [Cfg("polar_native", N, fz) for N in Ns for fz in (0, 1)]
+
+
+def _sc_textbook_native(y, imask, frozen_val, pi, regime):
+    import math
+
+    if regime == "min_sum":
+        f = f_minsum
+    else:
+        def f(a, b):
+            p = math.tanh(float(a) / 2) * math.tanh(float(b) / 2)
+            p = max(min(p, 1 - 1e-16), -1 + 1e-16)
+            return 2 * math.atanh(p)
+    return sc_textbook(y, imask, frozen_val, pi, f)
+
+
+@obligation("C11.decoders_native", function=_SC_FUNCS + "; " + _BP_FUNCS + "; " + FU + ":stop_criterion; " + FU + ":cyclic_perm", configs=_native_cfgs, kind="custom", engine="standin")
+def decoders_native(spec, cfg, tier, seed):
+    """BOUNDED stand-in (never counted as proved): the (k, N, frozen, interleave, regime) grid beyond the symbolic reach, natively.
+    noise-free LLRs at magnitudes 0.5..100, batch sizes 1..8, all 2^k messages for small k; SC against sc_textbook on random dyadic LLRs."""
+    from kaira.models.fec.decoders.belief_propagation_polar import BeliefPropagationPolarDecoder
+    from kaira.models.fec.decoders.successive_cancellation import SuccessiveCancellationDecoder
+
+    _, N, fz = cfg
+    t0 = time.time()
+    rng = random.Random(seed * 977 + N * 2 + fz)
+    quick = tier == "quick"
+    if N <= (16 if quick else 32):
+        ks = list(range(1, N))
+    else:
+        nk = {32: 8, 64: 4, 128: 3, 256: 2, 512: 2, 1024: 1}[N] * (1 if quick else 3)
+        ks = sorted(set([1, N - 1][: max(0, nk - 1)] + [rng.randint(1, N - 1) for _ in range(nk)]))[: nk + 1]
+    kexh = 6 if quick else 10
+    bp_nmax = 32 if quick else 64
+    tb_nmax = 32 if quick else 64
+    mags = (0.5, 1.0, 7.3, 50.0, 100.0)
+    stats = {}
+
+    def record(name, ok, wit):
+        st = stats.setdefault(name, {"n": 0, "fail": None})
+        st["n"] += 1
+        if not ok and st["fail"] is None:
+            st["fail"] = wit
+
+    for k in ks:
+        for pi in (0, 1):
+            pcfg = Cfg("polar", N, k, fz, pi, None)
+            enc = encoder(pcfg)
+            if k <= kexh:
+                msgs = [list(m) for m in itertools.product([0, 1], repeat=k)]
+            else:
+                msgs = [[rng.randint(0, 1) for _ in range(k)] for _ in range(12 if N <= 64 else 4)]
+            M = torch.tensor(msgs, dtype=torch.float32)
+            X = enc(M)
+            want_x = [[int(v) for v in encode_spec(m, pcfg)] for m in msgs[:4]]
+            record("encoder_matches_spec", X[:4].to(torch.int64).tolist() == want_x, {"N": N, "k": k, "polar_i": pi})
+            for regime in ("min_sum", "sum_product"):
+                decs = {"sc": sc_decoder(pcfg, regime)}
+                if not pi and N <= bp_nmax:
+                    decs["bp"] = bp_decoder(pcfg, regime, 10)
+                    decs["bp_early_stop"] = bp_decoder(pcfg, regime, 10, early_stop=True)
+                    if N <= 16 and N >= 4:
+                        key = ("cycle", pcfg, regime)
+                        if key not in _BP:
+                            _BP[key] = _quiet(BeliefPropagationPolarDecoder, enc, regime=regime, early_stop=True, perm="cycle")
+                        decs["bp_cycle_perm"] = _BP[key]
+                elif pi and k == ks[0] and regime == "min_sum":
+                    try:
+                        _quiet(BeliefPropagationPolarDecoder, enc)
+                        record("bp_rejects_polar_i", False, {"N": N, "k": k})
+                    except ValueError:
+                        record("bp_rejects_polar_i", True, None)
+                for a in mags:
+                    # batches of size 1..8 (a row's result must not depend on the batch)
+                    pos, bsz = 0, 1 + (k + int(a)) % 8
+                    while pos < len(msgs):
+                        mb, xb = M[pos : pos + bsz], X[pos : pos + bsz]
+                        llr = a * (1 - 2 * xb)
+                        for name, d in decs.items():
+                            try:
+                                out = _quiet(d, llr)
+                                ok = tuple(out.shape) == tuple(mb.shape) and bool((out == mb).all())
+                                wit = None if ok else {"N": N, "k": k, "frozen_zeros": fz, "polar_i": pi, "regime": regime, "magnitude": a, "batch": len(mb), "message": mb[0].tolist(), "decoded": out[0].tolist() if out.dim() == 2 else str(tuple(out.shape))}
+                            except Exception as e:
+                                ok, wit = False, {"N": N, "k": k, "frozen_zeros": fz, "polar_i": pi, "regime": regime, "magnitude": a, "raised": repr(e)[:200]}
+                            record(f"{name}.noise_free.{regime}", ok, wit)
+                        pos += bsz
+                        bsz = bsz % 8 + 1
+                # SC == textbook on random dyadic LLRs (exact in float64 for min-sum)
+                if N <= tb_nmax:
+                    info = info_positions(pcfg)
+                    imask = [i in info for i in range(N)]
+                    for _ in range(6 if N <= 16 else 2):
+                        y = [rng.choice([-1, 1]) * rng.randint(1, 640) / 64 for _ in range(N)]
+                        from fractions import Fraction as Fr
+
+                        ys = [Fr(v) for v in y] if regime == "min_sum" else y
+                        u, dlls, _ = _sc_textbook_native(ys, imask, 0 if fz else 1, bool(pi), regime)
+                        if any(abs(float(v)) < 1e-9 for v in dlls):
+                            continue
+                        out = decs["sc"](torch.tensor([y], dtype=torch.float64))
+                        got = [int(round(float(v))) for v in out[0].tolist()]
+                        wantu = [int(u[i]) for i in info]
+                        record(f"sc.equals_textbook.{regime}", got == wantu, {"N": N, "k": k, "frozen_zeros": fz, "polar_i": pi, "regime": regime, "llr": y, "decoded": got, "textbook": wantu})
+    res = []
+    for name, st in sorted(stats.items()):
+        r = ObResult(prop="C11", ob=f"{spec.id}/{name}", config=str(cfg), function=spec.function, engine="standin", backend="native", kind="bounded")
+        r.verdict = "discharged" if st["fail"] is None else "refuted"
+        r.paths = st["n"]
+        r.queries = st["n"]
+        r.witness = st["fail"]
+        r.replay_confirmed = None if st["fail"] is None else True
+        r.detail = f"bounded: {st['n']} native evaluations; N={N}, k in {ks[:6]}{'...' if len(ks) > 6 else ''} ({len(ks)} values), magnitudes {mags}, batch sizes 1..8, all 2^k messages for k <= {kexh}"
+        r.wall_s = round(time.time() - t0, 2)
+        res.append(r)
+    return res
